@@ -573,6 +573,13 @@ class DimensionValue(Value):
             sign, v, d = self.__reUnNumDim.findall(normalize(item.value))[0]
             if '.' in v:
                 val = float(sign + v)
+                if val in (float('inf'), float('-inf')):
+                    # cannot be kept (and serialized again) as a float
+                    self.wellformed = False
+                    self._log.error(
+                        'DimensionValue: Number too large: %r' % self._valuestr(cssText)
+                    )
+                    return
             else:
                 val = int(sign + v)
 
